@@ -47,8 +47,9 @@ Theorem C17_yields_refuted_killed_while_logging :
   exists w, ans w = ARaise EBrokenPool /\ await_handle w = Hangs HListener.
 Proof. exact yields_refuted_killed_while_logging. Qed.
 
-(** exactly that situation: the added hypothesis of the partial theorems below is
-    [stuck w = None], i.e. no log collection, or the worker did not die inside a log write *)
+(** exactly those situations: the added hypothesis of the partial theorems below is
+    [stuck w = None], i.e. the future answers (the function did not raise StopIteration) and:
+    no log collection, or the worker did not die inside a log write *)
 Theorem C17_hang_iff : forall w h, await_handle w = Hangs h <-> stuck w = Some h.
 Proof. exact hang_iff. Qed.
 
@@ -56,17 +57,27 @@ Theorem C17_yields_partial : forall w, stuck w = None -> exists x, await_handle 
 Proof. exact yields_partial. Qed.
 
 Theorem C17_yields_without_logging : forall w,
-  collect_logging w = false -> exists x, await_handle w = Yields x.
+  collect_logging w = false -> ans w <> ANever -> exists x, await_handle w = Yields x.
 Proof. exact yields_without_logging. Qed.
+
+(** second refutation (known finding `hang:future-never-completes`): a function that raises
+    StopIteration; asyncio refuses to put it into the Future that wraps the executor's future
+    (TypeError inside the _chain_future callback), so `ret = await future` never completes --
+    even without log collection *)
+Theorem C17_yields_refuted_stopiteration :
+  exists w, collect_logging w = false /\ consistent (ExnOdd OStopIteration 1, None) (ans w) /\
+            await_handle w = Hangs HFuture.
+Proof. exact yields_refuted_stopiteration. Qed.
 
 (** however much the worker logged: if it was not killed inside a log write the handle yields *)
 Theorem C17_yields_when_not_killed_logging : forall w,
-  died_in_log_write w = false -> exists x, await_handle w = Yields x.
+  died_in_log_write w = false -> ans w <> ANever -> exists x, await_handle w = Yields x.
 Proof. exact yields_when_not_killed_logging. Qed.
 
 (** value xor exception xor neither, matching the behaviour:
-    return -> that value; raise -> that exception; unpicklable return value -> a
-    pickling error as `raised` (CPython sends it back as an exception); SystemExit ->
+    return -> that value; raise -> that exception (any class that travels faithfully; the
+    three classes that do not are [ExnOdd], each a known finding); unpicklable return value or
+    unpicklable exception -> a pickling error as `raised` (CPython sends it back as an exception); SystemExit ->
     `raised` = that SystemExit; hard exit, SIGTERM, SIGKILL, SIGINT before the function
     runs -> neither; SIGINT while the function runs -> `raised` = KeyboardInterrupt;
     a signal racing completion -> one of: the natural outcome, the signal's outcome, neither *)
@@ -76,6 +87,9 @@ Theorem C17_outcome_shape : forall w sc x,
      match sc with
      | (Ret v, None) => [(Some v, None)]
      | (Exn e, None) => [(None, Some (EWorker e))]
+     | (ExnOdd OStopIteration _, None) => [(None, None)]      (* vacuous: never yields, see above *)
+     | (ExnOdd OCfCancelled e, None) => [(None, Some (EAioCancelled e))]   (* known finding: class changed *)
+     | (ExnOdd OUnloadable _, None) => [(None, None)]          (* known finding: exception lost *)
      | (Unpicklable, None) => [(None, Some EPickle)]
      | (SysExit n, None) => [(None, Some (ESysExit n))]
      | (HardExit _, None) => [(None, None)]
@@ -85,6 +99,7 @@ Theorem C17_outcome_shape : forall w sc x,
      | (b, Some (s, Racing)) =>
          [ match b with
            | Ret v => (Some v, None) | Exn e => (None, Some (EWorker e)) | Unpicklable => (None, Some EPickle)
+           | ExnOdd OCfCancelled e => (None, Some (EAioCancelled e)) | ExnOdd _ _ => (None, None)
            | SysExit n => (None, Some (ESysExit n)) | HardExit _ => (None, None) end;
            match s with SInt => (None, Some EKeyboardInt) | _ => (None, None) end;
            (None, None) ]
@@ -106,8 +121,8 @@ Theorem C17_cleanup_prefix : forall w,
     = run_trace w ++ rest.
 Proof. exact cleanup_prefix. Qed.
 
-(** ... the worker process is joined (exit code set) in EVERY world ... *)
-Theorem C17_process_always_joined : forall w, joined (run_trace w) = true.
+(** ... the worker process is joined (exit code set) in every world where the future answers ... *)
+Theorem C17_process_always_joined : forall w, ans w <> ANever -> joined (run_trace w) = true.
 Proof. exact process_always_joined. Qed.
 
 (** ... and, outside the stuck situation, on every path: the executor is shut down (wait=True, in
@@ -122,9 +137,11 @@ Theorem C17_cleanup_partial : forall w, stuck w = None ->
   joined (run_trace w) = true.
 Proof. exact cleanup_partial. Qed.
 
-(** in the stuck situation the process is joined but the listener task is left pending *)
+(** in the stuck situations: (killed while logging) the process is joined but the listener task is
+    left pending; (StopIteration) the `_run` task never reaches the shutdown: executor left open *)
 Theorem C17_cleanup_refuted :
-  exists w, joined (run_trace w) = true /\ helpers_left (run_trace w) = 1%nat.
+  (exists w, joined (run_trace w) = true /\ helpers_left (run_trace w) = 1%nat) /\
+  (exists w, collect_logging w = false /\ joined (run_trace w) = false /\ helpers_left (run_trace w) = 1%nat).
 Proof. exact cleanup_refuted. Qed.
 
 (** creation and exit times are present and ordered *)
@@ -161,6 +178,7 @@ Print Assumptions C17_yields_refuted_killed_while_logging.
 Print Assumptions C17_hang_iff.
 Print Assumptions C17_yields_partial.
 Print Assumptions C17_yields_without_logging.
+Print Assumptions C17_yields_refuted_stopiteration.
 Print Assumptions C17_yields_when_not_killed_logging.
 Print Assumptions C17_outcome_shape.
 Print Assumptions C17_value_xor_exception.
